@@ -3,9 +3,11 @@
    Model: Model/ProjectC12.v (on Model/Layout.v, Model/View.v); byte addresses are measured from the
    root array's data_elements(); `reachable sz ops v` = v is obtained from a zero-based root of sizes sz
    by any finite sequence of C01 view operations, each inside its documented domain. *)
-From BM Require Import Base.Tactics Model.Layout Model.View Model.Spec Model.ProjectC12
-  Proofs.LayoutProofs Proofs.ViewProofs2 Proofs.C01Main Proofs.ProjectC12Compose Proofs.ProjectC12ComposeN
-  Proofs.ProjectC12Main.
+From BM Require Import Base.Tactics Model.Layout Model.View Model.Spec Model.Iter Model.Rebase Model.ProjectC12
+  Model.ProjectC12Walk
+  Proofs.LayoutProofs Proofs.ViewProofs2 Proofs.IterProofs Proofs.ElemProofs Proofs.C01Main Proofs.RebaseProofs
+  Proofs.ProjectC12Compose Proofs.ProjectC12ComposeN Proofs.ProjectC12Main Proofs.ProjectC12ConvertBased
+  Proofs.ProjectC12Walk.
 Local Open Scope Z_scope.
 
 (* member_cast designates exactly the named member of each element *)
@@ -202,3 +204,184 @@ Theorem C12_convert_construct_pview :
       /\ forall idx, valid_idx (collapse sz) idx -> c_at c idx = Some (conv (rdb (p_addr_brackets x idx))).
 Proof. exact C12_convert_construct_pview_proved. Qed.
 Print Assumptions C12_convert_construct_pview.
+
+(* ================================================================================================
+   FOLLOW-UP 2: iterators of projected views, index bases, the other ways of making an array.
+   proj_ok p x            = the assertion of layout_t::scale holds (stride*sizeof(T) % sizeof(U) == 0 at every level)
+   pv_same a b            = same layout, same element size, same byte value of the base pointer (hence the same
+                            byte address for every index tuple: Proofs.ProjectC12Walk.pv_same_addr_brackets)
+   p_it_deref M it        = what *it designates (a sub-view; an element for rank 1), p_index r x = x[r]
+   run_a tr / run_e tr    = any finite trace of ++ -- += -= (Model/Iter.v), run_pos tr 0 = the integer it computes
+   ================================================================================================ *)
+
+(* The leading iterator of a projected view, after any iterator arithmetic, is at the position the arithmetic
+   computes, and at every dereferenceable position r it designates (a) what indexing designates and (b) the
+   projection of the source's r-th sub-view; it[k], *reverse_iterator(it) and reverse_iterator(it)[k] are the
+   dereferences at positions q+k, q-1, q-1-k.  All four projection kinds (member_cast, reinterpret_array_cast<U>(),
+   reinterpret_array_cast<U>(n), the casts that keep (layout, base) incl. element_transformed), any rank >= 1,
+   any extents, strides, traces. *)
+Theorem C12_projected_iterator_lead :
+  forall (x : pview) (n : Z) (sz : list Z) (p : proj),
+    lay_ok (lay (p_view x)) (n :: sz) -> 0 < n -> proj_ok p x -> proj_count_ok p ->
+    let M := p_exec_proj p x in
+    let b := p_it_begin M in
+    forall tr : list iop,
+      let q := run_pos tr 0 in
+      let it := run_a tr b in
+         it = it_add b q
+      /\ it_diff it b = q /\ it_diff (p_it_end M) it = n - q
+      /\ (forall r, 0 <= r < n ->
+              p_it_deref M (it_add b r) = p_index r M
+           /\ pv_same (p_it_deref M (it_add b r)) (p_exec_proj p (p_index r x))
+           /\ lay_ok (lay (p_view (p_it_deref M (it_add b r)))) (proj_sizes p sz))
+      /\ (0 <= q < n -> p_it_deref M it = p_it_deref M (it_add b q))
+      /\ (forall k, p_it_index M it k = p_it_deref M (it_add b (q + k)))
+      /\ p_rit_deref M it = p_it_deref M (it_add b (q - 1))
+      /\ (forall k, p_rit_index M it k = p_it_deref M (it_add b (q - 1 - k))).
+Proof. exact C12_projected_iterator_lead_proved. Qed.
+Print Assumptions C12_projected_iterator_lead.
+
+(* The same for views with ANY index base f (roots over based extensions, reindexed views), for the casts that
+   keep layout and base pointer (static_array_cast, const_array_cast, as_const, element_transformed): the iterator
+   at position r designates cast (v[f + r]); an element_transformed iterator reads g (source element). *)
+Theorem C12_projected_iterator_any_base :
+  forall (v : view) (d : dim) (l : layout) (f n : Z) (c : view -> view),
+    lay v = d :: l -> dim_okg d f n -> d_stride d <> 0 -> same_view_cast c ->
+    forall tr : list iop,
+      let q := run_pos tr 0 in
+      let it := run_a tr (it_begin (c v)) in
+         it = it_add (it_begin (c v)) q
+      /\ it_diff it (it_begin (c v)) = q /\ it_diff (it_end (c v)) it = n - q
+      /\ (forall r, 0 <= r < n -> it_deref (it_add (it_begin (c v)) r) = c (v_index (f + r) v))
+      /\ (forall k, it_index it k = it_deref (it_add (it_begin (c v)) (q + k)))
+      /\ it_deref (it_dec it) = it_deref (it_add (it_begin (c v)) (q - 1))
+      /\ (forall (A B : Type) (g : A -> B) (s : Z -> A) r idx, 0 <= r < n ->
+            t_read g s (it_deref (it_add (it_begin (v_element_transformed v)) r)) idx = g (v_read s (v_index (f + r) v) idx)).
+Proof. exact C12_projected_iterator_any_base_proved. Qed.
+Print Assumptions C12_projected_iterator_any_base.
+
+(* The flat iterators (elements().begin()/end()) of a projected view: after any trace inside [begin, end] the
+   iterator is at position q, *it and it[k] are at the byte address of the projected element at the q-th / (q+k)-th
+   index tuple in canonical order (last index fastest), which for the rank-preserving projections is the source
+   element's address plus the member offset. *)
+Theorem C12_projected_iterator_flat :
+  forall (x : pview) (sz : list Z) (p : proj),
+    lay_ok (lay (p_view x)) sz -> proj_ok p x -> proj_count_ok p ->
+    Forall (fun n => 0 < n) (proj_sizes p sz) ->
+    let M := p_exec_proj p x in
+    let N := er_size (p_view M) in
+    forall tr : list iop, trace_ok N 0 tr = true ->
+      let q := run_pos tr 0 in
+      let it := run_e tr (p_e_begin M) in
+         en it = q /\ 0 <= q <= N /\ N = prod (proj_sizes p sz)
+      /\ e_diff it (p_e_begin M) = q /\ e_diff (p_e_end M) it = N - q
+      /\ (q < N -> valid_idx (proj_sizes p sz) (canon (p_view M) q)
+                /\ p_e_deref M it = p_addr_brackets M (canon (p_view M) q))
+      /\ (forall k, p_e_index M it k = p_addr_brackets M (canon (p_view M) (q + k)))
+      /\ (forall k, 0 <= k < N ->
+            valid_idx (proj_sizes p sz) (canon (p_view M) k)
+         /\ rowmajor (proj_sizes p sz) (canon (p_view M) k) = k)
+      /\ (forall idx,
+            match p with
+            | PReinterpretN _ _ => True
+            | _ => p_addr_brackets M idx = p_addr_brackets x idx + proj_off p
+            end).
+Proof. exact C12_projected_iterator_flat_proved. Qed.
+Print Assumptions C12_projected_iterator_flat.
+
+(* Index bases.  static_array_cast / const_array_cast / as_const / element_transformed of EVERY view reachable from a
+   root built over arbitrary index extensions (operations of C01 and C19: reindexed, blocked; run_safe as in
+   C19_rebase_transparent) are the same (layout, base); reading element idx (any idx inside the view's extensions)
+   through element_transformed(g) gives g of the root element at the position the documented index maps prescribe
+   for the zero-based twin program. *)
+Theorem C12_identity_any_base :
+  forall (A B : Type) (g : A -> B) (exts : list range) (ops : list op) (w : view),
+    Forall (fun r => fst r <= snd r) exts ->
+    run_safe ops (root_view exts) = true -> run_ops ops (root_view exts) = Some w ->
+    let sz := map r_size exts in
+    let a := run_spec (twin_ops ops (root_view exts)) (root_spec sz) in
+       v_static_array_cast w = w /\ v_const_array_cast w = w /\ v_as_const w = w /\ v_element_transformed w = w
+    /\ forall (s : Z -> A) idx, in_extl (lay w) idx ->
+            t_read g s w idx = g (v_read s w idx)
+         /\ v_read s w idx = s (rowmajor (collapse sz) (amap a (vsubz idx (firsts_of w))))
+         /\ 0 <= rowmajor (collapse sz) (amap a (vsubz idx (firsts_of w))) < prod sz.
+Proof. exact C12_identity_any_base_proved. Qed.
+Print Assumptions C12_identity_any_base.
+
+(* reinterpret_array_cast<U>() of a CONST rank-1 view has its own code, which scales the offset: any index base *)
+Theorem C12_reinterpret_rank1_any_base :
+  forall (x : pview) (d : dim) (f n szU : Z),
+    lay (p_view x) = [d] -> dim_okg d f n -> 0 < p_esz x -> 0 < szU ->
+    Z.rem (d_stride d * p_esz x) szU = 0 ->
+    let m := p_reinterpret szU x in
+    exists d', lay (p_view m) = [d'] /\ dim_okg d' f n /\ p_esz m = szU
+      /\ l_extensions (lay (p_view m)) = l_extensions (lay (p_view x))
+      /\ forall i, p_addr_brackets m [i] = p_addr_brackets x [i].
+Proof. exact C12_reinterpret_rank1_any_base_proved. Qed.
+Print Assumptions C12_reinterpret_rank1_any_base.
+
+(* What stays excluded and why: the two-argument layout_t::scale asserts offset_ == 0 at every level
+   (layout.hpp:987).  Every zero-based view passes; a view with a non-empty dimension whose first index is not 0
+   does not: member_cast, reinterpret_array_cast<U>(n) and the non-const reinterpret_array_cast<U>() are outside
+   their domain there (the library aborts in assertion-enabled builds). *)
+Theorem C12_scale_offset_assertion :
+     (forall l sz, lay_ok l sz -> dom_scale_off l = true)
+  /\ (forall d l f n, dim_okg d f n -> 0 < n -> f <> 0 -> dom_scale_off (d :: l) = false).
+Proof. exact C12_scale_offset_assertion_proved. Qed.
+Print Assumptions C12_scale_offset_assertion.
+
+(* Conversion-construction from every re-based reachable view: always defined; when the view has elements the new
+   array has the SAME extensions (first indices included) and element idx = conv (source element idx) for every
+   idx inside them; when it has none the array is empty. *)
+Theorem C12_convert_construct_any_base :
+  forall (A B : Type) (conv : A -> B) (rd : Z -> A) (exts : list range) (ops : list op) (w : view),
+    Forall (fun r => fst r <= snd r) exts ->
+    run_safe ops (root_view exts) = true -> run_ops ops (root_view exts) = Some w ->
+    exists c, convert_construct conv rd (lay w) = Some c
+      /\ (Forall (fun n => 0 < n) (l_sizes (lay w)) ->
+             l_extensions (c_lay c) = l_extensions (lay w)
+          /\ l_sizes (c_lay c) = l_sizes (lay w)
+          /\ length (c_data c) = Z.to_nat (l_num_elements (lay w))
+          /\ forall idx, in_ext (l_extensions (lay w)) idx ->
+               c_at c idx = Some (conv (rd (l_addr (lay w) idx))))
+      /\ (l_num_elements (lay w) = 0 ->
+             c_data c = [] /\ l_num_elements (c_lay c) = 0 /\ c_lay c = mk_layout (l_extensions (lay w))).
+Proof. exact C12_convert_construct_any_base_proved. Qed.
+Print Assumptions C12_convert_construct_any_base.
+
+(* ... the same for any well-formed layout (lay_okg: any first indices, any strides), which also covers projected
+   views; assignment from a view/array of another element type (convert_assign) denotes the same value *)
+Theorem C12_convert_construct_based :
+  forall (A B : Type) (conv : A -> B) (rd : Z -> A) (l : layout) (fn : list (Z * Z)),
+    lay_okg l fn -> Forall (fun p => 0 < snd p) fn ->
+    exists c, convert_construct conv rd l = Some c
+      /\ convert_assign conv rd l = Some c
+      /\ l_extensions (c_lay c) = l_extensions l
+      /\ l_sizes (c_lay c) = map snd fn
+      /\ length (c_data c) = Z.to_nat (l_num_elements l)
+      /\ forall idx, in_ext (l_extensions l) idx -> c_at c idx = Some (conv (rd (l_addr l idx))).
+Proof. exact C12_convert_construct_based_proved. Qed.
+Print Assumptions C12_convert_construct_based.
+
+(* array(first, last) over the iterators of a view: the leading index range restarts at 0, inner extensions and
+   elements are kept (array.hpp:250-271) *)
+Theorem C12_convert_iter_pair :
+  forall (A B : Type) (conv : A -> B) (rd : Z -> A) (l : layout) (fn : list (Z * Z)) (r : range) (X : list range),
+    lay_okg l fn -> Forall (fun p => 0 < snd p) fn -> l_extensions l = r :: X ->
+    exists c, convert_iter_pair conv rd l = Some c
+      /\ l_extensions (c_lay c) = (0, r_size r) :: X
+      /\ length (c_data c) = Z.to_nat (l_num_elements l)
+      /\ forall i idx, in_ext (r :: X) (i :: idx) -> c_at c ((i - fst r) :: idx) = Some (conv (rd (l_addr l (i :: idx)))).
+Proof. exact C12_convert_iter_pair_proved. Qed.
+Print Assumptions C12_convert_iter_pair.
+
+(* array<T2,1>(view.elements()): element k is the conversion of the k-th element in canonical order *)
+Theorem C12_convert_flat :
+  forall (A B : Type) (conv : A -> B) (rd : Z -> A) (l : layout) (fn : list (Z * Z)),
+    lay_okg l fn -> Forall (fun p => 0 < snd p) fn ->
+    exists c, convert_flat conv rd l = Some c
+      /\ l_extensions (c_lay c) = [(0, l_num_elements l)]
+      /\ forall k, 0 <= k < l_num_elements l ->
+           c_at c [k] = Some (conv (rd (l_addr l (x_from_linear (l_extensions l) k)))).
+Proof. exact C12_convert_flat_proved. Qed.
+Print Assumptions C12_convert_flat.
